@@ -6,6 +6,15 @@ import os
 HERE = os.path.dirname(os.path.dirname(os.path.abspath(__file__)))
 
 CHECKS = {
+    "C04": dict(
+        technique="history monitor (composition model over per-statement column edges from the statement tap) + session-knowledge monitor over session tap events",
+        category="exploration",
+        text="For generated chain scripts (linear/diamond/fan-in/re-write; all/some/none consumed; star or named; with and without provider) and the multi-statement corpus, the reported end-to-end "
+             "pairs must equal root->leaf reachability over the union of the per-statement column edges (late resolution applied); with a provider, a star over an earlier target must expand "
+             "to exactly its columns and the session tap must show each registration between the writing and the reading statement.",
+        design_ref="DESIGN.md §4 C04",
+        note="Column identity in the model is the printed owner/candidates + name; per-statement edges come from the statement tap, so a mis-analysed statement is C02's problem, not C04's.",
+    ),
     "C05": dict(
         technique="split monitor + combination monitor: scripts assembled from known pieces and separator noise, compared with the pieces analysed alone (statement tap holders folded by the real SQLLineageHolder.of)",
         category="exploration",
